@@ -293,6 +293,9 @@ func (c *Chan) AppendBytes(data []byte, from int64, runID string) string {
 			}
 		}
 		if time.Now().After(deadline) {
+			if c.aofW == nil {
+				return "timeout: the writer is gone"
+			}
 			return fmt.Sprintf("timeout: writer right is %d, expected %d", c.aofW.Right(), from+n)
 		}
 		time.Sleep(100 * time.Microsecond)
